@@ -3,6 +3,7 @@ import itertools
 import random
 
 import conssim
+from c06_converge import check_converge
 from c05 import member_clients
 from common import Check, parse_coq_value, parse_eval_outputs, run_impl
 
@@ -362,3 +363,4 @@ def run(ck: Check):
                  sample={"scenario": sc["id"], "generations": ngen, "members": len(sc["consumers"])} if ngen >= 4 else None)
     ck.extra["input_distribution"] = hist
     ck.log(f"simulated {len(scs)} scenarios; convergence monitor violations {nbad}; {hist}")
+    check_converge(ck)
